@@ -1,6 +1,7 @@
 (* C02 — a patch never touches configuration outside the generators' ACL.
    Property theorems only; the proofs are in Proofs/AclPipelineProofs.v, Proofs/AclDeviceProofs.v (top level of
-   the device), Proofs/AclPatchRel2.v and Proofs/AclDeviceNested.v (every depth), the predicates in
+   the device), Proofs/AclPatchRel2.v and Proofs/AclDeviceNested.v (every depth), Proofs/AclGuardDomain.v (the
+   per-level guards follow from the device domain), the predicates in
    Spec/P_C02.v, the model of _diff_and_patch(old, new, acl_rules, ...) in Model/AclPipeline.v.
 
    The general theorems hold for EVERY row matcher of the ACL side (amatch_, asrc, arev, anorm)
@@ -10,7 +11,7 @@
 From Coq Require Import List String Bool Arith ZArith.
 From Annet Require Import Base.Str Base.Tree Model.Pattern Model.Rulebook Model.Diff Model.Order Model.Patch
      Model.Blocks Model.Pipeline Model.Device Model.Acl Model.AclPipeline Spec.PipelineCase Spec.P_C01 Spec.P_C02
-     Proofs.AclPipelineProofs Proofs.AclDeviceProofs Proofs.AclPatchRel2 Proofs.AclDeviceNested.
+     Proofs.AclPipelineProofs Proofs.AclDeviceProofs Proofs.AclPatchRel2 Proofs.AclDeviceNested Proofs.AclGuardDomain.
 Import ListNotations.
 Open Scope string_scope.
 
@@ -391,6 +392,109 @@ Proof.
 Qed.
 Print Assumptions C02_weak_holds_of_model.
 
+(* ------------------------------------------------------------------------------------ *)
+(* (b), (c) FROM THE DEVICE DOMAIN ALONE (Proofs/AclGuardDomain.v)                          *)
+(* The guards above are stated on the entries of the diff.  They follow from hypotheses on old, the ACL-filtered new
+   and the rulebook only:
+     [c02_dev_domain_A]  the device domain Spec/P_C01.v wf_A on old and the filtered new: distinct sibling rows, one row
+                         per (rule, key) slot, and on the universe of rows of both: default diff logic, logic among
+                         default / undo_redo / permanent / ignore_changes, no %force_commit, unambiguous removal
+                         commands, one set of attributes per rule text - i.e. [c02_dev_domain] minus %force_commit;
+     [c02_rules_det]     one set of attributes per rule text on every rule set that a row of old reaches (what a rulebook
+                         parsed from text guarantees; the domain says it of the rows of old and new only);
+     [c02_kept_ok]       no passed block of old with children, known to the rulebook and reached through such blocks, that
+                         is absent from new at its place and (X1) is governed by a cant_delete ACL rule while new holds
+                         another row of its slot, or (X2) is not cant_delete and its patching rule is `permanent`;
+     [c02_closed]        the ACL does not split a slot (for (b)).
+   One level of that diff inside the domain is characterised exactly (every entry is the entry of a row of the filtered
+   new - ADDED, or AFFECTED / UNCHANGED when old has the row - or of a row of the filtered old that new lacks - REMOVED, or
+   AFFECTED / UNCHANGED under a cant_delete ACL rule; below an entry that is neither ADDED nor REMOVED the diff is again
+   such a diff), at every depth. *)
+Theorem C02_diff_level_in_domain :
+  forall amatch_ asrc arev anorm rmatch rreverse is_exit ars rs U of nf n,
+    ConvergeMain.uok rmatch rreverse is_exit rs U -> ConvergeMain.good rmatch rs U of -> ConvergeMain.good rmatch rs U nf ->
+    In n (acl_make_diff amatch_ asrc arev anorm rmatch ars rs of nf) ->
+    exists m acrs crs,
+      acl_match amatch_ asrc arev anorm (d_row n) ars = MSome m acrs /\ match_row rmatch (d_row n) rs = Some (d_mi n, crs) /\
+      ((exists tn, In (d_row n, tn) nf /\
+                   ((exists to, In (d_row n, to) of /\ is_rm (d_op n) = false /\
+                                d_kids n = acl_make_diff amatch_ asrc arev anorm rmatch acrs crs (kids to) (kids tn)) \/
+                    (~ In (d_row n) (keys of) /\ d_op n = Added))) \/
+       (exists to, In (d_row n, to) of /\ ~ In (d_row n) (keys nf) /\
+                   ((all_cd m = false /\ d_op n = Removed) \/
+                    (all_cd m = true /\ is_rm (d_op n) = false /\
+                     d_kids n = acl_make_diff amatch_ asrc arev anorm rmatch acrs crs (kids to) [])))).
+Proof. exact level_entry. Qed.
+Print Assumptions C02_diff_level_in_domain.
+
+(* the diff the patch is made from is regular inside the domain (no guard on the diff is left) *)
+Theorem C02_diff_regular_in_domain : forall x, c02_dev_domain_A x = true -> diff_regular (p_full_diff x) = true.
+Proof. exact domain_diff_regular_model. Qed.
+Print Assumptions C02_diff_regular_in_domain.
+
+(* the guards of the full-depth theorems follow from the domain *)
+Theorem C02_c_guard_from_domain :
+  forall x, is_block_family (v_family (i_vendor x)) = true -> c02_dev_domain_A x = true ->
+            c02_rules_det x = true -> c02_kept_ok x = true -> c_deep_guard x = true.
+Proof. exact domain_c_deep_guard. Qed.
+Print Assumptions C02_c_guard_from_domain.
+
+Theorem C02_b_guard_from_domain :
+  forall x, is_block_family (v_family (i_vendor x)) = true -> c02_dev_domain_A x = true -> c02_closed x = true ->
+            c02_kept_ok x = true -> b_deep_guard x = true.
+Proof. exact domain_b_deep_guard. Qed.
+Print Assumptions C02_b_guard_from_domain.
+
+(* (c): C02_cant_delete_kept_statement for block formatters, without %force_commit, outside the classes X1 / X2 *)
+Theorem C02_cant_delete_kept_in_domain :
+  forall x ordering, is_block_family (v_family (i_vendor x)) = true -> c02_dev_domain_A x = true ->
+                     c02_rules_det x = true -> c02_kept_ok x = true -> C02_c x (model_out x ordering) = true.
+Proof. exact C02_c_domain_model. Qed.
+Print Assumptions C02_cant_delete_kept_in_domain.
+
+(* (b): C02_uncovered_untouched_statement, likewise *)
+Theorem C02_uncovered_untouched_in_domain :
+  forall x ordering, is_block_family (v_family (i_vendor x)) = true -> c02_dev_domain_A x = true -> c02_closed x = true ->
+                     c02_kept_ok x = true -> C02_b x (model_out x ordering) = true.
+Proof. exact C02_b_domain_model. Qed.
+Print Assumptions C02_uncovered_untouched_in_domain.
+
+(* all clauses of the predicate with the ancestor exception, from the domain alone *)
+Theorem C02_weak_holds_in_domain :
+  forall x ordering, is_block_family (v_family (i_vendor x)) = true -> c02_dev_domain_A x = true -> c02_closed x = true ->
+                     c02_rules_det x = true -> c02_kept_ok x = true -> P_C02_weak x (model_out x ordering) = true.
+Proof.
+  intros x ordering Hf Hd Hcl Hdet Hk. apply C02_weak_holds_of_model.
+  - apply domain_c_deep_guard; assumption.
+  - apply domain_b_deep_guard; assumption.
+Qed.
+Print Assumptions C02_weak_holds_in_domain.
+
+(* the FULL form of (c) and the property P_C02 itself from the domain alone: [c02_kept_ok_full] says moreover that no
+   passed cant_delete row sits inside a deletable block of old that is absent from new at its place - the class of the
+   open finding C02_cant_delete_ancestor_refuted, stated on old / new instead of on the diff *)
+Theorem C02_c_full_guard_from_domain :
+  forall x, is_block_family (v_family (i_vendor x)) = true -> c02_dev_domain_A x = true ->
+            c02_rules_det x = true -> c02_kept_ok_full x = true -> c_full_guard x = true.
+Proof. exact domain_c_full_guard. Qed.
+Print Assumptions C02_c_full_guard_from_domain.
+
+Theorem C02_cant_delete_kept_full_in_domain :
+  forall x ordering, is_block_family (v_family (i_vendor x)) = true -> c02_dev_domain_A x = true ->
+                     c02_rules_det x = true -> c02_kept_ok_full x = true -> C02_c_deep x (model_out x ordering) = true.
+Proof. exact C02_c_full_domain_model. Qed.
+Print Assumptions C02_cant_delete_kept_full_in_domain.
+
+Theorem C02_holds_in_domain :
+  forall x ordering, is_block_family (v_family (i_vendor x)) = true -> c02_dev_domain_A x = true -> c02_closed x = true ->
+                     c02_rules_det x = true -> c02_kept_ok_full x = true -> P_C02 x (model_out x ordering) = true.
+Proof.
+  intros x ordering Hf Hd Hcl Hdet Hk. apply C02_holds_of_model.
+  - apply domain_c_full_guard; assumption.
+  - apply (domain_b_deep_guard_with true); assumption.
+Qed.
+Print Assumptions C02_holds_in_domain.
+
 (* the shared report evaluated by the harness is the list of the predicates of Spec/P_C02.v *)
 Theorem C02_report_is_the_predicates :
   forall c, c2_report c =
@@ -574,18 +678,108 @@ Proof. vm_compute. repeat split. Qed.
 
 (* (c), device level: inside the device domain the slot of every cant_delete row of old whose
    ancestors are all still there is occupied after the patch.
-   Proved: C02_cant_delete_kept_of_model - the same conclusion under [c_deep_guard] instead of
-   [c02_dev_domain].  Missing between the two: (1) that the device domain (P_C01.wf_step, stated on the rows
-   of old and of the filtered new) implies the per-level conditions of the guard, which are stated on the
-   entries of the diff (needs: the rows of a diff level are rows of old / of the filtered new at that place,
-   a REMOVED entry is a row of old absent from new - at every depth); (2) blocks with children that are
-   cant_delete or `permanent`, absent from new, while new holds another row of their slot (the logic keeps the
-   old block and drops the new row; needs: one direct item per (rule, key) group of the patch);
-   (3) formatters that are not block formatters. *)
+   PROVED from the domain alone: C02_cant_delete_kept_in_domain - block formatter, [c02_dev_domain_A] (the domain minus
+   %force_commit), [c02_rules_det], [c02_kept_ok].  What remains between that theorem and this statement, exactly:
+   (1) %force_commit rules: the pseudo-command "commit" is executed by the reference device like any command; the
+       clauses hold on the witness below (C02_force_commit_witness) but the diff is irregular and the proofs of (a) and
+       of the chains do not cover it; for (b) this class is a genuine exception (C02_force_commit_refuted);
+   (2) classes X1 / X2 of [c02_kept_ok]: a block with children, absent from new at its place, that is cant_delete while
+       new holds another row of its slot (the default logic keeps the old block and drops the new row), or is
+       `permanent` and not cant_delete (the logic answers the REMOVED entry with a direct command).  The clauses hold on
+       the witnesses below (C02_kept_classes_witness: domain and clauses true, guards false); a proof needs the
+       sharper relation "one direct item per (rule, key) group, the AFFECTED one first" of the patch;
+   (3) rulebooks with two attribute sets for one rule text on a rule set old reaches ([c02_rules_det] false: the
+       dictionary of a parsed rulebook cannot hold them);
+   (4) formatters that are not block formatters (outside Model/Device.v). *)
 Definition C02_cant_delete_kept_statement : Prop :=
   forall x ordering, c02_dev_domain x = true -> C02_c x (model_out x ordering) = true.
 (* (b): inside the device domain and under slot_closed every row of old the ACL does not pass, whose
    ancestors are all still there, is unchanged with its subtree.
-   Proved: C02_uncovered_untouched_of_model, under [b_deep_guard]; missing: as for (c). *)
+   PROVED from the domain alone: C02_uncovered_untouched_in_domain; what remains: as for (c) - and over the whole of
+   [c02_dev_domain], i.e. with %force_commit rules, the statement is FALSE of the reference device
+   (C02_uncovered_untouched_statement_refuted: the pseudo-command "commit" overwrites an uncovered row of a rule whose
+   text is "commit"); it has to be read with [c02_dev_domain_A]. *)
 Definition C02_uncovered_untouched_statement : Prop :=
   forall x ordering, c02_dev_domain x = true -> c02_closed x = true -> C02_b x (model_out x ordering) = true.
+
+(* ------------------------------------------------------------------------------------ *)
+(* the theorems from the domain alone: non-vacuity and the classes left                    *)
+
+(* the hypotheses of C02_cant_delete_kept_in_domain / C02_uncovered_untouched_in_domain hold of the witnesses w0
+   (interface default, rows outside the ACL) and w4 (cant_delete row and uncovered row two blocks deep, next to a
+   block the diff removes) *)
+Example C02_domain_theorems_not_vacuous :
+  c02_dev_domain_A w0 = true /\ c02_rules_det w0 = true /\ c02_kept_ok w0 = true /\ c02_closed w0 = true /\
+  c02_dev_domain_A w4 = true /\ c02_rules_det w4 = true /\ c02_kept_ok w4 = true /\ c02_closed w4 = true /\
+  c02_kept_ok_full w0 = true /\ c02_kept_ok_full w4 = true.
+Proof. vm_compute. repeat split. Qed.
+(* on the witness of the open finding the hypothesis of the full form fails, that of the form with the exception holds *)
+Example C02_ancestor_witness_domain :
+  c02_dev_domain_A w1 = true /\ c02_rules_det w1 = true /\ c02_kept_ok w1 = true /\ c02_kept_ok_full w1 = false.
+Proof. vm_compute. repeat split. Qed.
+
+(* classes X1 and X2: inside the domain, guards of the diff false, [c02_kept_ok] false - the clauses hold all the same.
+   X1: "peer a x" (cant_delete, with children) is absent from new, new holds "peer a y" of the same slot: the default logic
+   keeps the AFFECTED old block and drops the new row.  X2: "peer a" is `permanent`, absent from new: the logic enters it. *)
+Definition blkp (pat : string) (lg : logic) (k : list prule) := PRule pat false (Attrs pat lg DDefault true false) k [].
+Definition x1_rules : rset := ([blk "peer *" [leaf "pwd *"; leaf "descr ~"]], []).
+Definition x1_acl : acl :=
+  [AItem "peer * %cant_delete=1" "peer *" false false (Some [true]) 0 []
+     [AItem "pwd *" "pwd *" false false None 0 [] []]].
+Definition x1 := C02In hw hav (acl_of x1_acl) x1_rules
+   [("peer a x", T [("pwd 1", T []); ("descr foo", T [])])]
+   [("peer a y", T [("pwd 2", T [])])].
+Definition x2_rules : rset := ([blkp "peer *" LPermanent [leaf "pwd *"; leaf "descr ~"]], []).
+Definition x2_acl : acl :=
+  [AItem "peer *" "peer *" false false None 0 []
+     [AItem "pwd * %cant_delete=1" "pwd *" false false (Some [true]) 0 [] []]].
+Definition x2 := C02In hw hav (acl_of x2_acl) x2_rules [("peer a", T [("pwd 1", T []); ("descr foo", T [])])] [].
+Example C02_kept_classes_witness :
+  (c02_dev_domain_A x1 = true /\ c02_closed x1 = true /\ c02_rules_det x1 = true /\ c02_kept_ok x1 = false /\
+   c_deep_guard x1 = false /\ b_deep_guard x1 = false /\
+   o_cmds (model_out x1 []) = Some [["peer a x"]; ["peer a x"; "undo pwd 1"]; ["peer a x"; "quit"]] /\
+   P_C02_weak x1 (model_out x1 []) = true) /\
+  (c02_dev_domain_A x2 = true /\ c02_closed x2 = true /\ c02_rules_det x2 = true /\ c02_kept_ok x2 = false /\
+   c_deep_guard x2 = false /\ b_deep_guard x2 = false /\
+   o_cmds (model_out x2 []) = Some [["peer a"]; ["peer a"; "pwd 1"]; ["peer a"; "quit"]] /\
+   P_C02_weak x2 (model_out x2 []) = true).
+Proof. vm_compute. repeat split. Qed.
+
+(* %force_commit: inside [c02_dev_domain], outside [c02_dev_domain_A]; the pseudo-command "commit" is one more command
+   path, the clauses hold *)
+Definition fleaf (pat : string) := PRule pat false (Attrs pat LDefault DDefault false true) [] [].
+Definition fc_rules : rset := ([blk "bgp *" [fleaf "pwd *"; leaf "descr ~"; fleaf "ttl *"]; leaf "vlan *"], []).
+Definition fc_acl : acl :=
+  [AItem "bgp *" "bgp *" false false None 0 []
+     [AItem "pwd * %cant_delete=1" "pwd *" false false (Some [true]) 0 [] [];
+      AItem "ttl *" "ttl *" false false None 0 [] []]].
+Definition fcw := C02In hw hav (acl_of fc_acl) fc_rules
+   [("bgp 1", T [("pwd x", T []); ("descr foo", T []); ("ttl 5", T [])]); ("vlan 5", T [])]
+   [("bgp 1", T [("ttl 9", T [])])].
+Example C02_force_commit_witness :
+  c02_dev_domain fcw = true /\ c02_dev_domain_A fcw = false /\ c02_closed fcw = true /\ diff_regular (p_full_diff fcw) = false /\
+  o_cmds (model_out fcw []) =
+    Some [["bgp 1"]; ["bgp 1"; "undo ttl 5"]; ["bgp 1"; "commit"]; ["bgp 1"; "ttl 9"]; ["bgp 1"; "quit"]] /\
+  P_C02_weak fcw (model_out fcw []) = true.
+Proof. vm_compute. repeat split. Qed.
+
+(* ... but (b) as stated over the whole of [c02_dev_domain] is FALSE: the reference device reads the pseudo-command
+   "commit" like any command, so next to a rule whose text is "commit" it overwrites an uncovered row of that rule
+   ("commit foo").  The real _diff_and_patch emits the same command paths [undo ttl 5] [commit] [ttl 9] (replayed on the
+   unchanged tree).  Not a defect of the code: the statement has to exclude %force_commit ([c02_dev_domain_A], as
+   C02_uncovered_untouched_in_domain does) or the device has to know the pseudo-command. *)
+Definition fr_rules : rset := ([fleaf "ttl *"; leaf "commit"], []).
+Definition fr_acl : acl := [AItem "ttl *" "ttl *" false false None 0 [] []].
+Definition fr := C02In hw hav (acl_of fr_acl) fr_rules [("commit foo", T []); ("ttl 5", T [])] [("ttl 9", T [])].
+Theorem C02_force_commit_refuted :
+  exists x ordering, c02_dev_domain x = true /\ c02_closed x = true /\ c02_dev_domain_A x = false /\
+                     o_cmds (model_out x ordering) = Some [["undo ttl 5"]; ["commit"]; ["ttl 9"]] /\
+                     C02_b x (model_out x ordering) = false /\ C02_c x (model_out x ordering) = true.
+Proof. exists fr, []. vm_compute. repeat split. Qed.
+Print Assumptions C02_force_commit_refuted.
+
+Theorem C02_uncovered_untouched_statement_refuted : ~ C02_uncovered_untouched_statement.
+Proof.
+  intro H. specialize (H fr [] eq_refl eq_refl). vm_compute in H. discriminate.
+Qed.
+Print Assumptions C02_uncovered_untouched_statement_refuted.
